@@ -7,6 +7,8 @@ Local Open Scope nat_scope.
 Inductive case :=
 | Step (g : cgraph) (importance : bool) (beta : Q) (nspin nedge : nat) (s0 : state) (tape : list word)
        (s1 : state) (e1 : Q) (panicked : bool)
+| StepFull (g : cgraph) (importance : bool) (beta : Q) (nspin nedge nworm : nat) (s0 : state) (tape : list word)
+           (s1 : state) (e1 : Q)
 | ProbeSpin (g : cgraph) (beta : Q) (s0 : state) (i : nat) (thr : N)
 | ProbeEdge (g : cgraph) (importance : bool) (beta : Q) (s0 : state) (k : nat) (thr : N).
 
@@ -30,6 +32,14 @@ Definition check (c : case) : verdict :=
            | RIndet => VIndet
            | RBad _ => VFail
            end
+  | StepFull g imp beta nspin nedge nworm s0 tape s1 e1 =>
+      match run_tape (time_step_full exp_neg_bounds g imp beta nspin nedge nworm s0) tape with
+      | RDone s rest =>
+          of_bool (match rest with nil => true | _ => false end
+                   && bools_eqb s s1 && Qeq_bool (energy g s1) e1)
+      | RIndet => VIndet
+      | RBad _ => VFail
+      end
   | ProbeSpin g beta s0 i thr =>
       let '(lo, hi) := accept_bounds beta (delta_spin g s0 i) in
       of_bool (within thr lo hi
